@@ -1,5 +1,6 @@
 import OntVerif.Model.NeoVal
 import OntVerif.Proofs.Codec
+import OntVerif.Props.C18
 /-! Specification vocabulary (reachability, cycles, well-formed heaps) and helper lemmas for C14 / C15. Core-only. -/
 namespace OntVerif.Proofs.NeoVal
 open OntVerif.Util OntVerif.Model.Codec OntVerif.Model.NeoVal OntVerif.Proofs.Codec
@@ -541,5 +542,619 @@ theorem sortE_of_perm {l es : List Entry} (hp : l.Perm es) (hs : SortedK es) : s
 theorem sortedEntries_eq (perm : Perm) (hv : perm.valid) (path : List Nat) (r : Ref) {es : List Entry}
     (hs : SortedK es) : sortedEntries perm path r es = es :=
   sortE_of_perm (hv path r es) hs
+
+/-! ## round trip -/
+
+def valOK : Val → Prop
+  | .int z => intTooBig z = false
+  | _ => True
+
+instance (v : Val) : Decidable (valOK v) := by
+  cases v <;> unfold valOK <;> infer_instance
+
+def elemsOf : Obj → List Val
+  | .arr vs => vs
+  | .struct vs => vs
+  | .map es => es.flatMap fun e => [e.kv, e.val]
+
+/-- the limits under which the round trip is claimed (they hold for every heap the VM can build, except the integer bound,
+which `INVERT` can violate — see C13) -/
+structure WFHeap (h : Heap) : Prop where
+  arr : ∀ (r : Ref) vs, h[r]? = some (Obj.arr vs) → vs.length ≤ MAX_ARRAY_SIZE
+  struct : ∀ (r : Ref) vs, h[r]? = some (Obj.struct vs) → vs.length ≤ MAX_ARRAY_SIZE
+  map : ∀ (r : Ref) es, h[r]? = some (Obj.map es) → SortedK es ∧ es.length < 9223372036854775808 ∧ ∀ e ∈ es, asBytes e.kv = some e.key
+  vals : ∀ (r : Ref) o, h[r]? = some o → ∀ v ∈ elemsOf o, valOK v
+
+theorem chkSize_ok {size : Nat} {out b : Bytes} (h : chkSize size out = .ok b) :
+    b = out ∧ size + out.length ≤ MAX_BYTEARRAY_SIZE := by
+  unfold chkSize at h
+  split at h
+  · cases h
+  · cases h; exact ⟨rfl, by omega⟩
+
+theorem ser_zero {var perm h path v size} {out : Bytes} : ser var perm h 0 path v size ≠ .ok out := by
+  simp [ser]
+
+theorem ser_bytes_ok {var perm h f path size d} {out : Bytes}
+    (hs : ser var perm h f path (.bytes d) size = .ok out) :
+    out = encLeaf (.bytes d) ∧ size + out.length ≤ MAX_BYTEARRAY_SIZE := by
+  cases f with
+  | zero => exact absurd hs ser_zero
+  | succ f =>
+    unfold ser at hs
+    split at hs
+    · cases hs
+    · obtain ⟨h1, h2⟩ := chkSize_ok hs; subst h1; exact ⟨rfl, h2⟩
+
+theorem ser_bool_ok {var perm h f path size b} {out : Bytes}
+    (hs : ser var perm h f path (.bool b) size = .ok out) :
+    out = encLeaf (.bool b) ∧ size + out.length ≤ MAX_BYTEARRAY_SIZE := by
+  cases f with
+  | zero => exact absurd hs ser_zero
+  | succ f =>
+    unfold ser at hs
+    split at hs
+    · cases hs
+    · obtain ⟨h1, h2⟩ := chkSize_ok hs; subst h1; exact ⟨rfl, h2⟩
+
+theorem ser_int_ok {var perm h f path size z} {out : Bytes}
+    (hs : ser var perm h f path (.int z) size = .ok out) :
+    out = encLeaf (.int z) ∧ size + out.length ≤ MAX_BYTEARRAY_SIZE := by
+  cases f with
+  | zero => exact absurd hs ser_zero
+  | succ f =>
+    unfold ser at hs
+    split at hs
+    · cases hs
+    · obtain ⟨h1, h2⟩ := chkSize_ok hs; subst h1; exact ⟨rfl, h2⟩
+
+theorem ser_ref_ok {var perm h f path size r} {out : Bytes}
+    (hs : ser var perm h f path (.ref r) size = .ok out) :
+    ∃ f' o body, f = f' + 1 ∧ h[r]? = some o ∧
+      serList (ser var perm h f') path 0 (serKids perm path r o) (size + (tagOf o :: writeVarUint (countOf o)).length) = .ok body ∧
+      out = (tagOf o :: writeVarUint (countOf o)) ++ body ∧ size + out.length ≤ MAX_BYTEARRAY_SIZE := by
+  cases f with
+  | zero => exact absurd hs ser_zero
+  | succ f =>
+    unfold ser at hs
+    split at hs
+    · cases hs
+    · simp only at hs
+      cases ho : h[r]? with
+      | none => rw [ho] at hs; cases hs
+      | some o =>
+        rw [ho] at hs
+        simp only at hs
+        cases hb : serList (ser var perm h f) path 0 (serKids perm path r o) (size + (tagOf o :: writeVarUint (countOf o)).length) with
+        | error e => rw [hb] at hs; cases hs
+        | ok body =>
+          rw [hb] at hs
+          obtain ⟨h1, h2⟩ := chkSize_ok hs
+          subst h1
+          exact ⟨f, o, body, rfl, rfl, hb, rfl, h2⟩
+
+theorem serList_cons_ok {rec : List Nat → Val → Nat → Except VErr Bytes} {path i v vs size} {body : Bytes}
+    (hs : serList rec path i (v :: vs) size = .ok body) :
+    ∃ o os, rec (i :: path) v size = .ok o ∧ serList rec path (i + 1) vs (size + o.length) = .ok os ∧ body = o ++ os := by
+  unfold serList at hs
+  cases h1 : rec (i :: path) v size with
+  | error e => rw [h1] at hs; cases hs
+  | ok o =>
+    rw [h1] at hs
+    simp only at hs
+    cases h2 : serList rec path (i + 1) vs (size + o.length) with
+    | error e => rw [h2] at hs; cases hs
+    | ok os => rw [h2] at hs; cases hs; exact ⟨o, os, rfl, h2, rfl⟩
+
+theorem serList_nil_ok {rec : List Nat → Val → Nat → Except VErr Bytes} {path i size} {body : Bytes}
+    (hs : serList rec path i [] size = .ok body) : body = [] := by
+  unfold serList at hs; cases hs; rfl
+
+
+/-! ### decoder side -/
+
+theorem writeVarBytes_length (d : Bytes) : (writeVarBytes d).length = getVarUintSize d.length + d.length := by
+  simp [writeVarBytes, writeVarUint_length]
+
+theorem readVarBytes_rt (pre d rest : Bytes) (hlen : (pre ++ writeVarBytes d ++ rest).length < two64) :
+    readVarBytes ⟨pre ++ writeVarBytes d ++ rest, pre.length⟩
+      = .ok (d, ⟨pre ++ writeVarBytes d ++ rest, pre.length + (writeVarBytes d).length⟩) := by
+  unfold readVarBytes
+  rw [OntVerif.Props.C18.C18_rt_varbytes d pre rest hlen, writeVarBytes_length]
+  simp [Nat.add_assoc]
+
+theorem readCount_rt (pre : Bytes) (n : Nat) (rest : Bytes) (hn : n < two64)
+    (hlen : (pre ++ writeVarUint n ++ rest).length < two64) :
+    readCount ⟨pre ++ writeVarUint n ++ rest, pre.length⟩
+      = .ok (n, ⟨pre ++ writeVarUint n ++ rest, pre.length + (writeVarUint n).length⟩) := by
+  unfold readCount
+  rw [rt_varuint n hn pre rest hlen, writeVarUint_length]
+  simp
+
+def leafTree : Val → Tree
+  | .bytes d => .bytes d
+  | .bool b => .bool b
+  | .int z => .int z
+  | .ref _ => .int 0
+
+/-- one tag byte then a payload: what `deser` sees after `NextByte` -/
+theorem deser_step (g depth : Nat) (pre : Bytes) (tag : UInt8) (tail : Bytes) (hd : depth ≤ MAX_COUNT) :
+    deser (g + 1) ⟨pre ++ tag :: tail, pre.length⟩ depth =
+      (let s1 : Src := ⟨pre ++ tag :: tail, pre.length + 1⟩
+       if tag == 0x01 then
+         let ((b, irr, eof), s2) := nextBool s1
+         if eof then .error .eof else if irr then .error .irregular else .ok (.bool b, s2)
+       else if tag == 0x00 then
+         match readVarBytes s1 with
+         | .error e => .error e
+         | .ok (d, s2) => if d.length > MAX_BYTEARRAY_SIZE then .error .itemsize else .ok (.bytes d, s2)
+       else if tag == 0x02 then
+         match readVarBytes s1 with
+         | .error e => .error e
+         | .ok (d, s2) => if intTooBig (fromNeo d) then .error .bigint else .ok (.int (fromNeo d), s2)
+       else if tag == 0x80 then
+         match readCount s1 with
+         | .error e => .error e
+         | .ok (l, s2) =>
+           match desList (fun s => deser g s (depth + 1)) (loopCount l) s2 [] with
+           | .error e => .error e
+           | .ok (ts, s3) => .ok (.arr ts, s3)
+       else if tag == 0x82 then
+         match readCount s1 with
+         | .error e => .error e
+         | .ok (l, s2) =>
+           match desMap (fun s => deser g s (depth + 1)) (loopCount l) s2 [] with
+           | .error e => .error e
+           | .ok (es, s3) => .ok (.map es, s3)
+       else if tag == 0x81 then
+         match readCount s1 with
+         | .error e => .error e
+         | .ok (l, s2) =>
+           match desList (fun s => deser g s (depth + 1)) (loopCount l) s2 [] with
+           | .error e => .error e
+           | .ok (ts, s3) => .ok (.struct ts, s3)
+       else .error .badtype) := by
+  rw [deser]
+  have hnd : ¬ depth > MAX_COUNT := by omega
+  simp only [hnd, if_false, nextByte_append, Bool.false_eq_true]
+  rfl
+
+
+theorem deser_leaf (v : Val) (hleaf : ∀ r, v ≠ .ref r) (hok : valOK v) (g depth : Nat) (pre rest : Bytes)
+    (hd : depth ≤ MAX_COUNT) (hsz : (encLeaf v).length ≤ MAX_BYTEARRAY_SIZE)
+    (hlen : (pre ++ encLeaf v ++ rest).length < two64) :
+    deser (g + 1) ⟨pre ++ encLeaf v ++ rest, pre.length⟩ depth
+      = .ok (leafTree v, ⟨pre ++ encLeaf v ++ rest, pre.length + (encLeaf v).length⟩) := by
+  cases v with
+  | ref r => exact absurd rfl (hleaf r)
+  | bool b =>
+    have e : pre ++ encLeaf (.bool b) ++ rest = pre ++ 0x01 :: (writeBool b ++ rest) := by simp [encLeaf]
+    rw [e, deser_step g depth pre 0x01 _ hd]
+    have e2 : pre ++ 0x01 :: (writeBool b ++ rest) = (pre ++ [0x01]) ++ writeBool b ++ rest := by simp
+    have e3 : pre.length + 1 = (pre ++ [(0x01 : UInt8)]).length := by simp
+    simp only [beq_self_eq_true, if_true]
+    rw [e2, e3, OntVerif.Props.C18.C18_rt_bool b (pre ++ [0x01]) rest]
+    simp [encLeaf, writeBool, leafTree, Nat.add_assoc]
+  | bytes d =>
+    have e : pre ++ encLeaf (.bytes d) ++ rest = pre ++ 0x00 :: (writeVarBytes d ++ rest) := by simp [encLeaf]
+    have e2 : pre ++ 0x00 :: (writeVarBytes d ++ rest) = (pre ++ [0x00]) ++ writeVarBytes d ++ rest := by simp
+    have e3 : pre.length + 1 = (pre ++ [(0x00 : UInt8)]).length := by simp
+    have hl2 : ((pre ++ [0x00]) ++ writeVarBytes d ++ rest).length < two64 := by rw [← e2, ← e]; exact hlen
+    rw [e, deser_step g depth pre 0x00 _ hd]
+    have t1 : ((0x00 : UInt8) == 0x01) = false := by decide
+    simp only [t1, Bool.false_eq_true, if_false, beq_self_eq_true, if_true]
+    rw [e2, e3, readVarBytes_rt (pre ++ [0x00]) d rest hl2]
+    have hdl : ¬ d.length > MAX_BYTEARRAY_SIZE := by
+      simp [encLeaf, writeVarBytes_length] at hsz; omega
+    simp [hdl, encLeaf, leafTree, Nat.add_assoc, Nat.add_comm]
+  | int z =>
+    have e : pre ++ encLeaf (.int z) ++ rest = pre ++ 0x02 :: (writeVarBytes (toNeo z) ++ rest) := by simp [encLeaf]
+    have e2 : pre ++ 0x02 :: (writeVarBytes (toNeo z) ++ rest) = (pre ++ [0x02]) ++ writeVarBytes (toNeo z) ++ rest := by simp
+    have e3 : pre.length + 1 = (pre ++ [(0x02 : UInt8)]).length := by simp
+    have hl2 : ((pre ++ [0x02]) ++ writeVarBytes (toNeo z) ++ rest).length < two64 := by rw [← e2, ← e]; exact hlen
+    rw [e, deser_step g depth pre 0x02 _ hd]
+    have t1 : ((0x02 : UInt8) == 0x01) = false := by decide
+    have t2 : ((0x02 : UInt8) == 0x00) = false := by decide
+    simp only [t1, t2, Bool.false_eq_true, if_false, beq_self_eq_true, if_true]
+    rw [e2, e3, readVarBytes_rt (pre ++ [0x02]) (toNeo z) rest hl2]
+    have hz : intTooBig z = false := hok
+    simp [fromNeo_toNeo, hz, encLeaf, leafTree, Nat.add_assoc, Nat.add_comm]
+
+
+/-- the round-trip statement for one value at unfolding budget `u` -/
+def RTv (var : Variant) (perm : Perm) (h : Heap) (u : Nat) : Prop :=
+  ∀ v t, unfold h u v = some t → valOK v →
+  ∀ f path size out, ser var perm h f path v size = .ok out →
+  ∀ g depth pre rest, u + 1 ≤ g → depth + u ≤ MAX_COUNT → (pre ++ out ++ rest).length < two64 →
+    deser g ⟨pre ++ out ++ rest, pre.length⟩ depth = .ok (t, ⟨pre ++ out ++ rest, pre.length + out.length⟩)
+
+theorem unfold_leaf (h : Heap) (u : Nat) (v : Val) (hleaf : ∀ r, v ≠ .ref r) : unfold h u v = some (leafTree v) := by
+  cases v with
+  | ref r => exact absurd rfl (hleaf r)
+  | _ => cases u <;> rfl
+
+theorem rt_leaf (var : Variant) (perm : Perm) (h : Heap) (u : Nat) (v : Val) (hleaf : ∀ r, v ≠ .ref r) (t : Tree)
+    (hu : unfold h u v = some t) (hok : valOK v)
+    (f : Nat) (path : List Nat) (size : Nat) (out : Bytes) (hs : ser var perm h f path v size = .ok out)
+    (g depth : Nat) (pre rest : Bytes) (hg : 1 ≤ g) (hd : depth ≤ MAX_COUNT)
+    (hlen : (pre ++ out ++ rest).length < two64) :
+    deser g ⟨pre ++ out ++ rest, pre.length⟩ depth = .ok (t, ⟨pre ++ out ++ rest, pre.length + out.length⟩) := by
+  rw [unfold_leaf h u v hleaf] at hu
+  cases hu
+  have hout : out = encLeaf v ∧ size + out.length ≤ MAX_BYTEARRAY_SIZE := by
+    cases v with
+    | ref r => exact absurd rfl (hleaf r)
+    | bytes d => exact ser_bytes_ok hs
+    | bool b => exact ser_bool_ok hs
+    | int z => exact ser_int_ok hs
+  obtain ⟨ho, hsz⟩ := hout
+  subst ho
+  obtain ⟨g', rfl⟩ : ∃ g', g = g' + 1 := ⟨g - 1, by omega⟩
+  exact deser_leaf v hleaf hok g' depth pre rest hd (by omega) hlen
+
+/-- elements of an array / struct -/
+theorem rt_list (var : Variant) (perm : Perm) (h : Heap) (u : Nat) (ih : RTv var perm h u) :
+    ∀ vs ts, unfoldList (unfold h u) vs = some ts → (∀ v ∈ vs, valOK v) →
+    ∀ f path i size body, serList (ser var perm h f) path i vs size = .ok body →
+    ∀ g depth pre rest acc, u + 1 ≤ g → depth + u ≤ MAX_COUNT → (pre ++ body ++ rest).length < two64 →
+      acc.length + vs.length ≤ MAX_ARRAY_SIZE →
+      desList (fun s => deser g s depth) vs.length ⟨pre ++ body ++ rest, pre.length⟩ acc
+        = .ok (acc.reverse ++ ts, ⟨pre ++ body ++ rest, pre.length + body.length⟩) := by
+  intro vs
+  induction vs with
+  | nil =>
+    intro ts hu _ f path i size body hs g depth pre rest acc _ _ _ _
+    cases serList_nil_ok hs
+    simp only [unfoldList] at hu
+    cases hu
+    simp [desList]
+  | cons v vs ihl =>
+    intro ts hu hok f path i size body hs g depth pre rest acc hg hd hlen hacc
+    obtain ⟨o, os, h1, h2, rfl⟩ := serList_cons_ok hs
+    simp only [unfoldList] at hu
+    cases hv : unfold h u v with
+    | none => rw [hv] at hu; cases hu
+    | some t =>
+      rw [hv] at hu
+      simp only at hu
+      cases hvs : unfoldList (unfold h u) vs with
+      | none => rw [hvs] at hu; cases hu
+      | some ts' =>
+        rw [hvs] at hu
+        cases hu
+        have e : pre ++ (o ++ os) ++ rest = pre ++ o ++ (os ++ rest) := by simp
+        have e2 : pre ++ o ++ (os ++ rest) = (pre ++ o) ++ os ++ rest := by simp
+        have hl1 : (pre ++ o ++ (os ++ rest)).length < two64 := by rw [← e]; exact hlen
+        have hl2 : ((pre ++ o) ++ os ++ rest).length < two64 := by rw [← e2]; exact hl1
+        have d1 := ih v t hv (hok v (List.mem_cons_self)) f (i :: path) size o h1 g depth pre (os ++ rest) hg hd hl1
+        have d2 := ihl ts' hvs (fun x hx => hok x (List.mem_cons_of_mem _ hx)) f path (i + 1) (size + o.length) os h2
+          g depth (pre ++ o) rest (t :: acc) hg hd hl2 (by simp at hacc ⊢; omega)
+        simp only [List.length_cons, desList]
+        rw [e, d1]
+        simp only
+        have hnl : ¬ acc.length ≥ MAX_ARRAY_SIZE := by simp at hacc; omega
+        simp only [hnl, if_false]
+        rw [e2]
+        have e3 : pre.length + o.length = (pre ++ o).length := by simp
+        rw [e3, d2]
+        simp [Nat.add_assoc]
+
+
+theorem asBytes_leafTree (v : Val) (hleaf : ∀ r, v ≠ .ref r) : (leafTree v).asBytes = asBytes v := by
+  cases v with
+  | ref r => exact absurd rfl (hleaf r)
+  | _ => rfl
+
+theorem leaf_of_asBytes {v : Val} {k : Bytes} (h : asBytes v = some k) : ∀ r, v ≠ .ref r := by
+  intro r hr; subst hr; cases h
+
+/-- entries of a map -/
+theorem rt_entries (var : Variant) (perm : Perm) (h : Heap) (u : Nat) (ih : RTv var perm h u) :
+    ∀ es tes, unfoldEntries (unfold h u) es = some tes →
+    (∀ e ∈ es, asBytes e.kv = some e.key ∧ valOK e.kv ∧ valOK e.val) →
+    ∀ f path i size body, serList (ser var perm h f) path i (es.flatMap fun e => [e.kv, e.val]) size = .ok body →
+    ∀ g depth pre rest acc, u + 1 ≤ g → depth + u ≤ MAX_COUNT → (pre ++ body ++ rest).length < two64 →
+      desMap (fun s => deser g s depth) es.length ⟨pre ++ body ++ rest, pre.length⟩ acc
+        = .ok (tes.foldl (fun a x => tmapSet x.1 x.2.1 x.2.2 a) acc, ⟨pre ++ body ++ rest, pre.length + body.length⟩) := by
+  intro es
+  induction es with
+  | nil =>
+    intro tes hu _ f path i size body hs g depth pre rest acc _ _ _
+    simp only [List.flatMap_nil] at hs
+    cases serList_nil_ok hs
+    simp only [unfoldEntries] at hu
+    cases hu
+    simp [desMap]
+  | cons e es ihl =>
+    intro tes hu hok f path i size body hs g depth pre rest acc hg hd hlen
+    have hfm : (e :: es).flatMap (fun e => [e.kv, e.val]) = e.kv :: e.val :: es.flatMap (fun e => [e.kv, e.val]) := by
+      simp [List.flatMap_cons]
+    rw [hfm] at hs
+    obtain ⟨ok_, os1, h1, h2, rfl⟩ := serList_cons_ok hs
+    obtain ⟨ov, os, h3, h4, rfl⟩ := serList_cons_ok h2
+    obtain ⟨hkey, hokk, hokv⟩ := hok e List.mem_cons_self
+    have hleafk := leaf_of_asBytes hkey
+    simp only [unfoldEntries] at hu
+    rw [unfold_leaf h u e.kv hleafk] at hu
+    cases hv : unfold h u e.val with
+    | none => rw [hv] at hu; cases hu
+    | some tv =>
+      rw [hv] at hu
+      simp only at hu
+      cases hes : unfoldEntries (unfold h u) es with
+      | none => rw [hes] at hu; cases hu
+      | some tes' =>
+        rw [hes] at hu
+        cases hu
+        have e1 : pre ++ (ok_ ++ (ov ++ os)) ++ rest = pre ++ ok_ ++ (ov ++ os ++ rest) := by simp
+        have e2 : pre ++ ok_ ++ (ov ++ os ++ rest) = (pre ++ ok_) ++ ov ++ (os ++ rest) := by simp
+        have e3 : (pre ++ ok_) ++ ov ++ (os ++ rest) = (pre ++ ok_ ++ ov) ++ os ++ rest := by simp
+        have hl1 : (pre ++ ok_ ++ (ov ++ os ++ rest)).length < two64 := by rw [← e1]; exact hlen
+        have hl2 : ((pre ++ ok_) ++ ov ++ (os ++ rest)).length < two64 := by rw [← e2]; exact hl1
+        have hl3 : ((pre ++ ok_ ++ ov) ++ os ++ rest).length < two64 := by rw [← e3]; exact hl2
+        have d1 := ih e.kv _ (unfold_leaf h u e.kv hleafk) hokk f (i :: path) size ok_ h1 g depth pre (ov ++ os ++ rest) hg hd hl1
+        have d2 := ih e.val tv hv hokv f ((i + 1) :: path) (size + ok_.length) ov h3 g depth (pre ++ ok_) (os ++ rest) hg hd hl2
+        have d3 := ihl tes' hes (fun x hx => hok x (List.mem_cons_of_mem _ hx)) f path (i + 1 + 1) (size + ok_.length + ov.length) os h4
+          g depth (pre ++ ok_ ++ ov) rest (tmapSet e.key (leafTree e.kv) tv acc) hg hd hl3
+        simp only [List.length_cons, desMap]
+        rw [e1, d1]
+        simp only
+        have ea : pre.length + ok_.length = (pre ++ ok_).length := by simp
+        rw [e2, ea, d2]
+        simp only
+        rw [asBytes_leafTree e.kv hleafk, hkey]
+        simp only
+        have eb : (pre ++ ok_).length + ov.length = (pre ++ ok_ ++ ov).length := by simp only [List.length_append]
+        rw [e3, eb, d3]
+        simp only [List.length_append, Nat.add_assoc, List.foldl_cons]
+
+
+def TSorted (l : List (Bytes × Tree × Tree)) : Prop := l.Pairwise fun a b => ble a.1 b.1 = true ∧ a.1 ≠ b.1
+
+theorem tmapSet_append (k : Bytes) (kv v : Tree) :
+    ∀ l : List (Bytes × Tree × Tree), (∀ x ∈ l, x.1 ≠ k ∧ ble k x.1 = false) → tmapSet k kv v l = l ++ [(k, kv, v)]
+  | [], _ => rfl
+  | x :: xs, hx => by
+    obtain ⟨h1, h2⟩ := hx x List.mem_cons_self
+    simp only [tmapSet, h1, if_false, h2, Bool.false_eq_true, List.cons_append]
+    rw [tmapSet_append k kv v xs (fun y hy => hx y (List.mem_cons_of_mem _ hy))]
+
+theorem foldl_tmapSet_sorted : ∀ (l2 l1 : List (Bytes × Tree × Tree)), TSorted (l1 ++ l2) →
+    l2.foldl (fun a x => tmapSet x.1 x.2.1 x.2.2 a) l1 = l1 ++ l2
+  | [], l1, _ => by simp
+  | x :: l2, l1, hs => by
+    have hx : ∀ y ∈ l1, y.1 ≠ x.1 ∧ ble x.1 y.1 = false := by
+      intro y hy
+      have := (List.pairwise_append.mp hs).2.2 y hy x List.mem_cons_self
+      refine ⟨this.2, ?_⟩
+      cases hb : ble x.1 y.1 with
+      | false => rfl
+      | true => exact absurd (ble_antisymm _ _ this.1 hb) this.2
+    simp only [List.foldl_cons]
+    rw [tmapSet_append _ _ _ l1 hx]
+    have e : l1 ++ x :: l2 = (l1 ++ [x]) ++ l2 := by simp
+    rw [e] at hs ⊢
+    exact foldl_tmapSet_sorted l2 (l1 ++ [x]) hs
+
+theorem unfoldEntries_keys (rec : Val → Option Tree) :
+    ∀ es tes, unfoldEntries rec es = some tes → tes.map (·.1) = es.map (·.key)
+  | [], tes, h => by simp only [unfoldEntries] at h; cases h; rfl
+  | e :: es, tes, h => by
+    simp only [unfoldEntries] at h
+    cases hk : rec e.kv with
+    | none => rw [hk] at h; cases h
+    | some k =>
+      cases hv : rec e.val with
+      | none => rw [hk, hv] at h; cases h
+      | some v =>
+        rw [hk, hv] at h
+        simp only at h
+        cases hes : unfoldEntries rec es with
+        | none => rw [hes] at h; cases h
+        | some r =>
+          rw [hes] at h
+          cases h
+          simp [unfoldEntries_keys rec es r hes]
+
+theorem tsorted_of_unfold {rec : Val → Option Tree} {es : List Entry} {tes} (hu : unfoldEntries rec es = some tes)
+    (hs : SortedK es) : TSorted tes := by
+  have hk := unfoldEntries_keys rec es tes hu
+  have h1 : (es.map (·.key)).Pairwise (fun a b => ble a b = true ∧ a ≠ b) := List.pairwise_map.mpr hs
+  rw [← hk] at h1
+  exact List.pairwise_map.mp h1
+
+theorem loopCount_small {n : Nat} (h : n < 9223372036854775808) : loopCount n = n := by
+  simp [loopCount, h]
+
+/-- array / struct case of the round trip -/
+theorem rt_seq (var : Variant) (perm : Perm) (h : Heap) (u : Nat) (ih : RTv var perm h u)
+    (tag : UInt8) (mk : List Tree → Tree)
+    (hstep : ∀ g depth pre tail, depth ≤ MAX_COUNT →
+      deser (g + 1) ⟨pre ++ tag :: tail, pre.length⟩ depth =
+        match readCount ⟨pre ++ tag :: tail, pre.length + 1⟩ with
+        | .error e => .error e
+        | .ok (l, s2) =>
+          match desList (fun s => deser g s (depth + 1)) (loopCount l) s2 [] with
+          | .error e => .error e
+          | .ok (ts, s3) => .ok (mk ts, s3))
+    (vs : List Val) (ts : List Tree) (hu : unfoldList (unfold h u) vs = some ts) (hok : ∀ v ∈ vs, valOK v)
+    (hn : vs.length ≤ MAX_ARRAY_SIZE)
+    (f : Nat) (path : List Nat) (size : Nat) (body : Bytes)
+    (hs : serList (ser var perm h f) path 0 vs size = .ok body)
+    (g depth : Nat) (pre rest : Bytes) (hg : u + 1 ≤ g) (hd : depth + (u + 1) ≤ MAX_COUNT)
+    (hlen : (pre ++ ((tag :: writeVarUint vs.length) ++ body) ++ rest).length < two64) :
+    deser (g + 1) ⟨pre ++ ((tag :: writeVarUint vs.length) ++ body) ++ rest, pre.length⟩ depth
+      = .ok (mk ts, ⟨pre ++ ((tag :: writeVarUint vs.length) ++ body) ++ rest,
+                     pre.length + ((tag :: writeVarUint vs.length) ++ body).length⟩) := by
+  have hn64 : vs.length < two64 := by unfold MAX_ARRAY_SIZE at hn; unfold two64; omega
+  have e0 : pre ++ ((tag :: writeVarUint vs.length) ++ body) ++ rest
+      = pre ++ tag :: (writeVarUint vs.length ++ body ++ rest) := by simp
+  have e1 : pre ++ tag :: (writeVarUint vs.length ++ body ++ rest)
+      = (pre ++ [tag]) ++ writeVarUint vs.length ++ (body ++ rest) := by simp
+  have e2 : (pre ++ [tag]) ++ writeVarUint vs.length ++ (body ++ rest)
+      = (pre ++ [tag] ++ writeVarUint vs.length) ++ body ++ rest := by simp
+  have hl1 : ((pre ++ [tag]) ++ writeVarUint vs.length ++ (body ++ rest)).length < two64 := by
+    rw [← e1, ← e0]; exact hlen
+  have hl2 : ((pre ++ [tag] ++ writeVarUint vs.length) ++ body ++ rest).length < two64 := by rw [← e2]; exact hl1
+  rw [e0, hstep g depth pre _ (by omega)]
+  have ea : pre.length + 1 = (pre ++ [tag]).length := by simp
+  rw [e1, ea, readCount_rt (pre ++ [tag]) vs.length (body ++ rest) hn64 hl1]
+  simp only
+  rw [loopCount_small (by unfold MAX_ARRAY_SIZE at hn; omega)]
+  have eb : (pre ++ [tag]).length + (writeVarUint vs.length).length = (pre ++ [tag] ++ writeVarUint vs.length).length := by
+    simp only [List.length_append]
+  have d := rt_list var perm h u ih vs ts hu hok f path 0 size body hs g (depth + 1)
+    (pre ++ [tag] ++ writeVarUint vs.length) rest [] hg (by omega) hl2 (by simpa using hn)
+  rw [e2, eb, d]
+  simp only [List.reverse_nil, List.nil_append, List.length_append, List.length_cons, List.length_nil]
+  have : pre.length + (0 + 1) + (writeVarUint vs.length).length + body.length = pre.length + ((writeVarUint vs.length).length + 1 + body.length) := by omega
+  rw [this]
+
+
+/-- map case of the round trip -/
+theorem rt_mapc (var : Variant) (perm : Perm) (h : Heap) (u : Nat) (ih : RTv var perm h u)
+    (es : List Entry) (tes : List (Bytes × Tree × Tree)) (hu : unfoldEntries (unfold h u) es = some tes)
+    (hsorted : SortedK es) (hcnt : es.length < 9223372036854775808)
+    (hok : ∀ e ∈ es, asBytes e.kv = some e.key ∧ valOK e.kv ∧ valOK e.val)
+    (f : Nat) (path : List Nat) (size : Nat) (body : Bytes)
+    (hs : serList (ser var perm h f) path 0 (es.flatMap fun e => [e.kv, e.val]) size = .ok body)
+    (g depth : Nat) (pre rest : Bytes) (hg : u + 1 ≤ g) (hd : depth + (u + 1) ≤ MAX_COUNT)
+    (hlen : (pre ++ (((0x82 : UInt8) :: writeVarUint es.length) ++ body) ++ rest).length < two64) :
+    deser (g + 1) ⟨pre ++ (((0x82 : UInt8) :: writeVarUint es.length) ++ body) ++ rest, pre.length⟩ depth
+      = .ok (.map tes, ⟨pre ++ (((0x82 : UInt8) :: writeVarUint es.length) ++ body) ++ rest,
+                     pre.length + (((0x82 : UInt8) :: writeVarUint es.length) ++ body).length⟩) := by
+  have hn64 : es.length < two64 := by unfold two64; omega
+  have e0 : pre ++ (((0x82 : UInt8) :: writeVarUint es.length) ++ body) ++ rest
+      = pre ++ (0x82 : UInt8) :: (writeVarUint es.length ++ body ++ rest) := by simp
+  have e1 : pre ++ (0x82 : UInt8) :: (writeVarUint es.length ++ body ++ rest)
+      = (pre ++ [(0x82 : UInt8)]) ++ writeVarUint es.length ++ (body ++ rest) := by simp
+  have e2 : (pre ++ [(0x82 : UInt8)]) ++ writeVarUint es.length ++ (body ++ rest)
+      = (pre ++ [(0x82 : UInt8)] ++ writeVarUint es.length) ++ body ++ rest := by simp
+  have hl1 : ((pre ++ [(0x82 : UInt8)]) ++ writeVarUint es.length ++ (body ++ rest)).length < two64 := by
+    rw [← e1, ← e0]; exact hlen
+  have hl2 : ((pre ++ [(0x82 : UInt8)] ++ writeVarUint es.length) ++ body ++ rest).length < two64 := by rw [← e2]; exact hl1
+  rw [e0, deser_step g depth pre 0x82 _ (by omega)]
+  have t1 : ((0x82 : UInt8) == 0x01) = false := by decide
+  have t2 : ((0x82 : UInt8) == 0x00) = false := by decide
+  have t3 : ((0x82 : UInt8) == 0x02) = false := by decide
+  have t4 : ((0x82 : UInt8) == 0x80) = false := by decide
+  simp only [t1, t2, t3, t4, Bool.false_eq_true, if_false, beq_self_eq_true, if_true]
+  have ea : pre.length + 1 = (pre ++ [(0x82 : UInt8)]).length := by simp
+  rw [e1, ea, readCount_rt (pre ++ [0x82]) es.length (body ++ rest) hn64 hl1]
+  simp only
+  rw [loopCount_small hcnt]
+  have eb : (pre ++ [(0x82 : UInt8)]).length + (writeVarUint es.length).length = (pre ++ [(0x82 : UInt8)] ++ writeVarUint es.length).length := by
+    simp only [List.length_append]
+  have d := rt_entries var perm h u ih es tes hu hok f path 0 size body hs g (depth + 1)
+    (pre ++ [0x82] ++ writeVarUint es.length) rest [] hg (by omega) hl2
+  rw [e2, eb, d, foldl_tmapSet_sorted tes [] (by simpa using tsorted_of_unfold hu hsorted)]
+  simp only [List.nil_append, List.length_append, List.length_cons, List.length_nil]
+  have : pre.length + (0 + 1) + (writeVarUint es.length).length + body.length = pre.length + ((writeVarUint es.length).length + 1 + body.length) := by omega
+  rw [this]
+
+theorem deser_step_arr (g depth : Nat) (pre tail : Bytes) (hd : depth ≤ MAX_COUNT) :
+    deser (g + 1) ⟨pre ++ (0x80 : UInt8) :: tail, pre.length⟩ depth =
+      match readCount ⟨pre ++ (0x80 : UInt8) :: tail, pre.length + 1⟩ with
+      | .error e => .error e
+      | .ok (l, s2) =>
+        match desList (fun s => deser g s (depth + 1)) (loopCount l) s2 [] with
+        | .error e => .error e
+        | .ok (ts, s3) => .ok (Tree.arr ts, s3) := by
+  rw [deser_step g depth pre 0x80 _ hd]
+  have t1 : ((0x80 : UInt8) == 0x01) = false := by decide
+  have t2 : ((0x80 : UInt8) == 0x00) = false := by decide
+  have t3 : ((0x80 : UInt8) == 0x02) = false := by decide
+  simp only [t1, t2, t3, Bool.false_eq_true, if_false, beq_self_eq_true, if_true]
+  first | done | rfl
+
+theorem deser_step_struct (g depth : Nat) (pre tail : Bytes) (hd : depth ≤ MAX_COUNT) :
+    deser (g + 1) ⟨pre ++ (0x81 : UInt8) :: tail, pre.length⟩ depth =
+      match readCount ⟨pre ++ (0x81 : UInt8) :: tail, pre.length + 1⟩ with
+      | .error e => .error e
+      | .ok (l, s2) =>
+        match desList (fun s => deser g s (depth + 1)) (loopCount l) s2 [] with
+        | .error e => .error e
+        | .ok (ts, s3) => .ok (Tree.struct ts, s3) := by
+  rw [deser_step g depth pre 0x81 _ hd]
+  have t1 : ((0x81 : UInt8) == 0x01) = false := by decide
+  have t2 : ((0x81 : UInt8) == 0x00) = false := by decide
+  have t3 : ((0x81 : UInt8) == 0x02) = false := by decide
+  have t4 : ((0x81 : UInt8) == 0x80) = false := by decide
+  have t5 : ((0x81 : UInt8) == 0x82) = false := by decide
+  simp only [t1, t2, t3, t4, t5, Bool.false_eq_true, if_false, beq_self_eq_true, if_true]
+  first | done | rfl
+
+
+theorem rt_all (var : Variant) (perm : Perm) (hv : perm.valid) (h : Heap) (w : WFHeap h) : ∀ u, RTv var perm h u := by
+  intro u
+  induction u with
+  | zero =>
+    intro v t hu hok f path size out hs g depth pre rest hg hd hlen
+    cases v with
+    | ref r => simp [unfold] at hu
+    | bytes d => exact rt_leaf var perm h 0 _ (by intro r hr; cases hr) t hu hok f path size out hs g depth pre rest (by omega) (by omega) hlen
+    | bool b => exact rt_leaf var perm h 0 _ (by intro r hr; cases hr) t hu hok f path size out hs g depth pre rest (by omega) (by omega) hlen
+    | int z => exact rt_leaf var perm h 0 _ (by intro r hr; cases hr) t hu hok f path size out hs g depth pre rest (by omega) (by omega) hlen
+  | succ u ih =>
+    intro v t hu hok f path size out hs g depth pre rest hg hd hlen
+    cases v with
+    | bytes d => exact rt_leaf var perm h _ _ (by intro r hr; cases hr) t hu hok f path size out hs g depth pre rest (by omega) (by omega) hlen
+    | bool b => exact rt_leaf var perm h _ _ (by intro r hr; cases hr) t hu hok f path size out hs g depth pre rest (by omega) (by omega) hlen
+    | int z => exact rt_leaf var perm h _ _ (by intro r hr; cases hr) t hu hok f path size out hs g depth pre rest (by omega) (by omega) hlen
+    | ref r =>
+      obtain ⟨f', o, body, rfl, ho, hb, rfl, _⟩ := ser_ref_ok hs
+      obtain ⟨g', rfl⟩ : ∃ g', g = g' + 1 := ⟨g - 1, by omega⟩
+      simp only [unfold, ho] at hu
+      cases o with
+      | arr vs =>
+        simp only at hu
+        cases hl : unfoldList (unfold h u) vs with
+        | none => rw [hl] at hu; cases hu
+        | some ts =>
+          rw [hl] at hu
+          cases hu
+          exact rt_seq var perm h u ih 0x80 Tree.arr (fun g depth pre tail hd => deser_step_arr g depth pre tail hd)
+            vs ts hl (fun x hx => w.vals r _ ho x hx) (w.arr r vs ho) f' path _ body hb g' depth pre rest (by omega) hd hlen
+      | struct vs =>
+        simp only at hu
+        cases hl : unfoldList (unfold h u) vs with
+        | none => rw [hl] at hu; cases hu
+        | some ts =>
+          rw [hl] at hu
+          cases hu
+          exact rt_seq var perm h u ih 0x81 Tree.struct (fun g depth pre tail hd => deser_step_struct g depth pre tail hd)
+            vs ts hl (fun x hx => w.vals r _ ho x hx) (w.struct r vs ho) f' path _ body hb g' depth pre rest (by omega) hd hlen
+      | map es =>
+        simp only at hu
+        cases hl : unfoldEntries (unfold h u) es with
+        | none => rw [hl] at hu; cases hu
+        | some tes =>
+          rw [hl] at hu
+          cases hu
+          obtain ⟨hsorted, hcnt, hkeys⟩ := w.map r es ho
+          have hkids : serKids perm path r (.map es) = es.flatMap fun e => [e.kv, e.val] := by
+            simp only [serKids, sortedEntries_eq perm hv path r hsorted]
+          rw [hkids] at hb
+          have hok' : ∀ e ∈ es, asBytes e.kv = some e.key ∧ valOK e.kv ∧ valOK e.val := by
+            intro e he
+            refine ⟨hkeys e he, ?_, ?_⟩
+            · exact w.vals r _ ho e.kv (by simp only [elemsOf, List.mem_flatMap]; exact ⟨e, he, by simp⟩)
+            · exact w.vals r _ ho e.val (by simp only [elemsOf, List.mem_flatMap]; exact ⟨e, he, by simp⟩)
+          exact rt_mapc var perm h u ih es tes hl hsorted hcnt hok' f' path _ body hb g' depth pre rest (by omega) hd hlen
+
+/-- **Round trip.** -/
+theorem roundtrip (var : Variant) (perm : Perm) (hv : perm.valid) (h : Heap) (w : WFHeap h) (v : Val) (hok : valOK v)
+    (t : Tree) (hu : unfold h MAX_COUNT v = some t) (out : Bytes) (hs : serialize var perm h v = .ok out) :
+    deserialize out = .ok (t, ⟨out, out.length⟩) := by
+  have hsz : out.length ≤ MAX_BYTEARRAY_SIZE := by
+    unfold serialize at hs
+    cases v with
+    | bytes d => have := (ser_bytes_ok hs).2; omega
+    | bool b => have := (ser_bool_ok hs).2; omega
+    | int z => have := (ser_int_ok hs).2; omega
+    | ref r => obtain ⟨_, _, _, _, _, _, _, h2⟩ := ser_ref_ok hs; omega
+  have := rt_all var perm hv h w MAX_COUNT v t hu hok serFuel [] 0 out hs (MAX_COUNT + 2) 0 [] []
+    (by omega) (by omega) (by simp; unfold MAX_BYTEARRAY_SIZE at hsz; unfold two64; omega)
+  simpa [deserialize] using this
 
 end OntVerif.Proofs.NeoVal
